@@ -45,6 +45,9 @@ func (o c02Op) String() string {
 		}
 		return fmt.Sprintf("delete %s/%s", o.b, o.k)
 	case "multi":
+		if o.nullVer {
+			return fmt.Sprintf("multi-delete %s %v VersionId=null", o.b, o.keys)
+		}
 		return fmt.Sprintf("multi-delete %s %v quiet=%v", o.b, o.keys, o.quiet)
 	case "copy":
 		return fmt.Sprintf("copy %s/%s -> %s/%s", o.b, o.k, o.b2, o.k2)
@@ -134,6 +137,8 @@ func c02BuildOps(u *c02Universe) []engine.Op {
 					ops = append(ops, c02Op{kind: "multi", b: b, keys: ks, quiet: q})
 				}
 			}
+			// the way boto3 empties a bucket: every entry names the version id the listing showed, "null"
+			ops = append(ops, c02Op{kind: "multi", b: b, keys: u.keys, nullVer: true})
 		}
 	}
 	return ops
@@ -287,7 +292,11 @@ func (s *c02Sys) Apply(op engine.Op) (string, *engine.Violation) {
 		}
 		return respSig(r), nil
 	case "multi":
-		r := s.w.Do(drv.Req{Method: "POST", Path: "/" + o.b, Query: "delete", Body: multiDeleteBody(o.keys, o.quiet)})
+		mb := multiDeleteBody(o.keys, o.quiet)
+		if o.nullVer {
+			mb = []byte(strings.ReplaceAll(string(mb), "</Key>", "</Key><VersionId>null</VersionId>"))
+		}
+		r := s.w.Do(drv.Req{Method: "POST", Path: "/" + o.b, Query: "delete", Body: mb})
 		e := s.m.MultiDelete(o.b, o.keys)
 		if !matchExp(r, e) {
 			return bad("status", r, e, "")
